@@ -8,6 +8,7 @@ It calls the real hy code (or code objects produced by the real hy compiler).
 """
 import importlib.util
 import multiprocessing as mp
+import multiprocessing.connection
 import os
 import re
 import sys
@@ -90,6 +91,21 @@ def patch_crosshair_for_hy():
             raise OSError(str(e))
 
     inspect.getsourcelines = igetsourcelines
+
+    # CrossHair looks for contracts on every callee via inspect.getclosurevars, which
+    # raises ValueError("Cell is empty") for a closure whose `nonlocal` variable is not
+    # assigned yet (Hy's generator-function comprehension strategy produces those).
+    import crosshair.fnutil as cf
+
+    gorig = cf.getclosurevars
+
+    def getclosurevars(fn):
+        try:
+            return gorig(fn)
+        except ValueError:
+            return inspect.ClosureVars({}, getattr(fn, "__globals__", {}), {}, set())
+
+    cf.getclosurevars = getclosurevars
     cu._vf_patched = True
 
 
@@ -133,13 +149,21 @@ def _load_module(path):
 def _native_replay(fn, cex):
     """Run the harness natively (no CrossHair) on concrete args.
     Returns (reproduces: bool, detail: str)."""
+    sk = sys.modules.get("vf.skel")
+    if sk is not None:
+        sk.EXPLAIN[0] = True
+        del sk.LAST_WHY[:]
     try:
         r = fn(*cex["args"], **cex["kwargs"])
     except BaseException as e:  # noqa
         return True, "raised %s: %s" % (type(e).__name__, e)
+    finally:
+        if sk is not None:
+            sk.EXPLAIN[0] = False
     if r is True:
         return False, "harness returned True natively"
-    return True, "harness returned %r natively" % (r,)
+    why = "; ".join(str(w) for w in sk.LAST_WHY) if sk is not None and sk.LAST_WHY else ""
+    return True, "harness returned %r natively%s" % (r, (": " + why) if why else "")
 
 
 def analyze_one(mod, ob_name, timeout, path_timeout, twin):
@@ -209,7 +233,7 @@ def analyze_one(mod, ob_name, timeout, path_timeout, twin):
     return rec
 
 
-def _worker(task):
+def _worker(task, emit=None):
     path, names, timeout, path_timeout = task
     patch_z3_counters()
     patch_crosshair_for_hy()
@@ -223,9 +247,129 @@ def _worker(task):
              "paths": 0, "queries": 0, "solver_s": 0.0, "wall_s": 0.0}
             for (n, tw, _) in names
         ]
+    prog = os.environ.get("VF_PROGRESS")
     for n, tw, to in names:
-        out.append(analyze_one(mod, n, to or timeout, path_timeout, tw))
+        r = analyze_one(mod, n, to or timeout, path_timeout, tw)
+        if prog:
+            sys.stderr.write("  [%s] %s %s paths=%s wall=%.1fs\n" % (
+                os.path.basename(path), n, r.get("verdict"), r.get("paths"), r.get("wall_s", 0)))
+            sys.stderr.flush()
+        out.append(r)
+        if emit is not None:
+            emit(r)
     return out
+
+
+def _child(conn):
+    """Persistent worker: receives tasks over a duplex pipe, sends one record per
+    obligation and a ("done",) marker per task.  A crash (or the parent's
+    watchdog) loses at most the task in flight."""
+    try:
+        while True:
+            task = conn.recv()
+            if task is None:
+                break
+            r = _worker(task, emit=lambda rec: conn.send(("rec", rec)))
+            if r and r[0].get("verdict") == "IMPORT_ERR":
+                for rec in r:
+                    conn.send(("rec", rec))
+            conn.send(("done",))
+    except BaseException:  # noqa
+        pass
+    finally:
+        os._exit(0)
+
+
+class _W:
+    def __init__(self, ctx):
+        self.conn, cc = ctx.Pipe(duplex=True)
+        self.proc = ctx.Process(target=_child, args=(cc,), daemon=True)
+        self.proc.start()
+        cc.close()
+        self.task = None
+        self.deadline = 0.0
+        self.got = []
+        self.ntasks = 0
+
+    def give(self, t):
+        self.task = t
+        self.got = []
+        self.ntasks += 1
+        budget = sum((to or t[2]) for (_, _, to) in t[1]) * 1.5 + 120
+        self.deadline = time.time() + budget
+        self.conn.send(t)
+
+    def stop(self):
+        try:
+            self.conn.send(None)
+        except Exception:
+            pass
+        self.proc.join(2)
+        if self.proc.is_alive():
+            self.proc.kill()
+        try:
+            self.conn.close()
+        except Exception:
+            pass
+
+
+def _lost(t, got):
+    have = {r["name"] for r in got}
+    out = list(got)
+    for (n, tw, _) in t[1]:
+        if n not in have:
+            out.append({"name": n, "twin": tw, "verdict": "WORKER_LOST", "paths": 0, "queries": 0,
+                        "solver_s": 0.0, "wall_s": 0.0,
+                        "message": "worker process died or exceeded its watchdog before finishing this obligation"})
+    return out
+
+
+def _run_tasks(tasks, procs):
+    ctx = mp.get_context("fork")
+    pending = list(tasks)
+    workers = [_W(ctx) for _ in range(min(procs, len(pending)))]
+    results = []
+    while pending or any(w.task is not None for w in workers):
+        for i, w in enumerate(workers):
+            if w.task is None and pending:
+                if w.ntasks >= 40:  # recycle long-lived workers (memory)
+                    w.stop()
+                    w = workers[i] = _W(ctx)
+                w.give(pending.pop(0))
+        busy = [w for w in workers if w.task is not None]
+        ready = mp.connection.wait([w.conn for w in busy], timeout=1.0)
+        now = time.time()
+        for i, w in enumerate(workers):
+            if w.task is None:
+                continue
+            dead = False
+            if w.conn in ready:
+                try:
+                    while w.conn.poll():
+                        msg = w.conn.recv()
+                        if msg[0] == "rec":
+                            w.got.append(msg[1])
+                        elif msg[0] == "done":
+                            results.extend(_lost(w.task, w.got))
+                            w.task = None
+                            break
+                except (EOFError, OSError):
+                    dead = True
+            if w.task is not None and (dead or now > w.deadline or not w.proc.is_alive()):
+                try:
+                    w.proc.kill()
+                except Exception:
+                    pass
+                results.extend(_lost(w.task, w.got))
+                w.task = None
+                try:
+                    w.conn.close()
+                except Exception:
+                    pass
+                workers[i] = _W(ctx)
+    for w in workers:
+        w.stop()
+    return results
 
 
 def run_obligations(obs, preamble, workdir, timeout=30.0, path_timeout=10.0,
@@ -256,10 +400,15 @@ def run_obligations(obs, preamble, workdir, timeout=30.0, path_timeout=10.0,
         for t in tasks:
             results.extend(_worker(t))
     else:
-        ctx = mp.get_context("fork")
-        with ctx.Pool(procs, maxtasksperchild=20) as pool:
-            for r in pool.imap_unordered(_worker, tasks):
-                results.extend(r)
+        # import the heavy modules once, before forking
+        import crosshair.core_and_libs  # noqa
+        import hy  # noqa
+        import hy.pyops  # noqa
+        import hy.core.hy_repr  # noqa
+
+        patch_z3_counters()
+        patch_crosshair_for_hy()
+        results = _run_tasks(tasks, procs)
     byname = {r["name"]: r for r in results}
     return [byname.get(o.name, {"name": o.name, "verdict": "MISSING", "twin": o.twin,
                                 "paths": 0, "queries": 0, "solver_s": 0.0, "wall_s": 0.0})
